@@ -158,6 +158,9 @@ CHECKS = {
     "C02": Elementwise(["fp"], RULE_EW, {
         "quick": "unary: special-value lattice (incl. 64 seed bit patterns + 64 moderate seed values) x all lane offsets and every binade x 64 mantissa patterns; binary: lattice^2 (about 900^2 float, 1000^2 double); ternary: compact lattice^3; ldexp: lattice x every exponent in [-300,300] / [-2200,2200]; all 22 architectures",
         "thorough": "as quick plus all 2^32 float32 bit patterns for every unary operation and 256 mantissa patterns per double binade"}),
+    "C03": Elementwise(["cmp"], RULE_EW, {
+        "quick": "six comparisons (operator and function forms, observed through bool store, mask(), 0/1 batch, get(i), batch_bool_cast) on the C01/C02 pair spaces (all 8-bit pairs, ALL16 x L16, lattices^2 incl. NaN/+-0/MIN/MAX); select on {0,1} x V^2 with masks of four provenances; batch_bool algebra (&,|,^,~,!,==,!=,andnot,&&,||, compound assignment) on every 16-bit mask value (unary), all pairs of 8-bit masks (binary; five provenance/observation pairs: bool load/store, from_mask/mask, comparison result/0-1 batch, batch_bool_cast both ways, element constructor/get) and every 16-bit mask x 4 special partners; all/any/none/count/mask against the n-bit integer model; all 22 architectures",
+        "thorough": "as quick with every 16-bit mask x 16 special partners, all 2^32 16-bit operand pairs for the comparisons"}),
     "C08": Elementwise(["fp"], RULE_EW, {
         "quick": "every k/2 and its two neighbours for |k| <= 2^13, +-64-ulp windows at 2^22..2^25, 2^30..2^33, 2^51..2^54, 2^62..2^64, special lattice x all lane offsets, every binade x 64 mantissa patterns; results compared as numbers; all 22 architectures",
         "thorough": "as quick plus all 2^32 float32 bit patterns, |k| <= 2^16 and 256 mantissa patterns per double binade"}),
